@@ -469,6 +469,14 @@ class SimSSHServer:
             payload = yield ('packet',)
         mtype = payload[0] if payload else None
         log['rx'].append(('kexmsg', mtype, len(payload)))
+        if key is not None:
+            self.log.setdefault('hostkey_negotiated', []).append({'conn': pc.ordinal, 'alg': key.decode('latin-1')})
+        if key is not None and key.decode('latin-1') in p.get('unsignable', []):
+            # the host-key algorithm is advertised, but this server cannot sign with it (e.g. a crypto policy that forbids SHA-1)
+            log['stage'] = 'cannot_sign'
+            yield ('send', 'disconnect', wire.frame(bytes([wire.MSG_DISCONNECT]) + wire.u32(3) + wire.sstr('signature failed') + wire.sstr('')))
+            yield ('close',)
+            return
         if kex is None or key is None:
             log['stage'] = 'no_common_alg'
             yield ('send', 'disconnect', wire.frame(bytes([wire.MSG_DISCONNECT]) + wire.u32(3) + wire.sstr('no matching algorithm') + wire.sstr('')))
